@@ -1,10 +1,10 @@
-import OrbitModel.Driver.World
+import OrbitModel.Driver.Transport
 open Orbit.Driver
 
 partial def loop (h : IO.FS.Stream) (w : World) : IO Unit := do
   let line ← h.getLine
   if line.isEmpty then return ()
-  let w := w.step (line.trimAscii.toString)
+  let w := w.stepAll (line.trimAscii.toString)
   for o in w.out do IO.println o
   loop h { w with out := #[] }
 
